@@ -86,6 +86,9 @@ class C01(Check):
 
     def specs(self):
         allspecs = worlds.rich_specs()
+        if self.tier == "thorough":
+            # every strand pair x pseudogene x alignment-indel combination once (sequence rotates)
+            return [s for i, s in enumerate(allspecs) if s.seqid == (i // 3) % 3]
         if self.tier == "quick":
             k = self.seed % 6
             pick = [s for i, s in enumerate(allspecs) if i % 6 == k]
@@ -98,7 +101,7 @@ class C01(Check):
         for spec in self.specs():
             w = worlds.world(spec)
             mins = plain_minors(w)
-            builds = ("hg19", "hg38") if self.tier == "thorough" else (("hg19", "hg38")[n % 2],)
+            builds = (("hg19", "hg38")[n % 2],)
             for build in builds:
                 for i, a in enumerate(mins):
                     for b in mins[i:]:
@@ -121,17 +124,18 @@ class C01(Check):
         if kinds == ["normal", "normal"]:
             a, b = comps[0][1], comps[1][1]
             # second haplotype replaced by a structural copy
-            if a in ("1.001", "2.002", "10.001", "6.001") or self.tier == "thorough":
+            if a in ("1.001", "2.002", "10.001", "6.001"):
                 for sk, sa in structural(w):
                     yield (f"{sk}", (spec, build, (comps[0], (sk, sa)), rl, dp, sh))
                 if w.spec.pseudo and b in ("1.001", "2.002", "5.001", "8.001", "10.001", "6.001"):
                     yield ("left:e2", (spec, build, (comps[0], ("left:e2", b)), rl, dp, sh))
             # duplication
-            extras = ("1.001", "2.001", "4.001") if self.tier == "quick" else plain_minors(w)
-            if self.tier == "thorough" or a in ("1.001", "3.001", "7.001"):
+            extras = ("1.001", "2.001", "4.001") if self.tier == "quick" else ("1.001", "2.001", "4.001", "7.001", "5.001")
+            if a in ("1.001", "3.001", "7.001") or (self.tier == "thorough" and a in ("2.002", "8.001", "9.001")):
                 for c in extras:
                     yield (f"+{c}", (spec, build, comps + (("extra", c),), rl, dp, sh))
-            if self.tier == "thorough":
+            indel = any(x in ("4.001", "6.001", "7.001", "8.001", "9.001") for x in (a, b))
+            if self.tier == "thorough" and (indel or a == "1.001"):
                 for r2 in RLS[1:]:
                     if r2 != rl:
                         yield (f"rl={r2}", (spec, build, comps, r2, dp, sh))
